@@ -17,7 +17,7 @@ RULE = (
     "infinite family (both TTLs 0xFFFFFF, no refresh, cyclic offers on), drawn uniform fractions, and a script of 0..8 "
     "disturbances (graceful stop/start, crash/restart of either stack, open/close of a fault window in which every "
     "datagram is independently dropped, duplicated or delayed) placed by delay or relative to the pending timers of either "
-    "stack (-4RES, -RES/4, +RES/4, +4RES, halfway); both stacks run the unmodified library on one virtual-time loop and "
+    "stack (-4RES, -RES/4, +RES/4, +4RES, halfway), on IPv4 or IPv6 addresses; both stacks run the unmodified library on one virtual-time loop and "
     "exchange real datagrams over a simulated network. non-trivial = a crash+restart or a stop/start placed relative to a "
     "pending timer, or a fault window in which a datagram was dropped/duplicated/delayed; distinct = distinct case JSON"
 )
@@ -30,9 +30,16 @@ ASSUMPTIONS = [
 ]
 BUDGET = {"quick": {"examples": 6400, "shrink": 150}, "thorough": {"examples": 320000, "shrink": 600}}
 INF = 0xFFFFFF
-O_ADDR, W_ADDR = ("10.0.0.1", 30490), ("10.0.0.2", 30490)
+NETS = {
+    False: dict(O=("10.0.0.1", 30490), W=("10.0.0.2", 30490), mc=MCAST, wsock=("10.0.0.2", 5000)),
+    True: dict(O=("2001:db8::1", 30490, 0, 0), W=("2001:db8::2", 30490, 0, 0), mc=("ff02::1:5", 30490, 0, 0), wsock=("2001:db8::2", 5000, 0, 0)),
+}
 SVC = (0x7000, 1, 1, 0)
-SUBKEY = (0x7000, 1, 1, 1, 0, (desc_semantic(ep_desc("10.0.0.2", 5000, 17)),))
+
+
+def subkey(v6):
+    ws = NETS[v6]["wsock"]
+    return (0x7000, 1, 1, 1, 0, (desc_semantic(ep_desc(ws[0], ws[1], 17)),))
 
 when_st = st.one_of(
     st.tuples(st.just("d"), st.sampled_from([0.0, 0.01, 0.1, 0.5, 1.0, 2.5, 5.0])).map(list),
@@ -53,12 +60,12 @@ def _case(draw):
         tm = dict(attl=INF, sttl=INF, cyc=draw(st.sampled_from([0.5, 1.0, 2.0])), refresh=None)
     tm.update(reps=draw(st.integers(0, 3)), base=draw(st.sampled_from([0.01, 0.05])), imax=draw(st.sampled_from([0, 0.01, 0.1])),
               rmax=draw(st.sampled_from([0.003, 0.02])), coll=draw(st.sampled_from([0, 0.005])))
-    ops = ["stopO", "startO", "stopW", "startW", "crashO", "crashW", "restartO", "restartW"] + (["fault-on", "fault-off"] if fam == "finite" else [])
+    ops = ["stopO", "startO", "stopW", "startW", "crashO", "crashW", "restartO", "restartW"] + (["fault-on", "fault-on", "fault-on", "fault-off"] if fam == "finite" else [])
     steps = []
     for _ in range(draw(st.integers(0, 8))):
         steps.append({"op": draw(st.sampled_from(ops)), "when": draw(when_st)})
     return {"fam": fam, "tm": tm, "fr": draw(st.lists(st.sampled_from([0.0, 0.5, 1.0]), min_size=1, max_size=3)), "steps": steps,
-            "faults": draw(st.lists(fault_act, min_size=1, max_size=8))}
+            "faults": draw(st.lists(fault_act, min_size=1, max_size=8)), "v6": draw(st.sampled_from([False, False, True]))}
 
 
 def strategy(tier):
@@ -79,7 +86,7 @@ def fixed_cases(tier):
                             first = {"op": "wait", "when": ["d", pre]}
                             a = {"op": kind + side, "when": ["t", k, off]}
                             b = {"op": ("start" if kind == "stop" else "restart") + side, "when": ["d", 0.3] if fam == "finite" else ["d", 8.0]}
-                            out.append({"fam": fam, "tm": tm, "fr": [0.5], "steps": [first, a, b], "faults": [["ok"]]})
+                            out.append({"fam": fam, "tm": tm, "fr": [0.5], "steps": [first, a, b], "faults": [["ok"]], "v6": (k + len(out)) % 3 == 0})
     # D2: a restarted watcher's first Subscribe carries the reboot evidence (infinite TTL: nothing heals it later)
     out.append({"fam": "infinite", "tm": inf, "fr": [0.5], "steps": [{"op": "wait", "when": ["d", 3.0]}, {"op": "crashW", "when": ["d", 0.1]}, {"op": "restartW", "when": ["d", 0.5]}], "faults": [["ok"]]})
     out.append({"fam": "infinite", "tm": inf, "fr": [0.5], "steps": [{"op": "wait", "when": ["d", 3.0]}, {"op": "crashO", "when": ["d", 0.1]}, {"op": "restartO", "when": ["d", 0.5]}], "faults": [["ok"]]})
@@ -94,9 +101,9 @@ def fixed_cases(tier):
 class Stack:
     def __init__(self, net, role, tm):
         self.net, self.role = net, role
-        self.addr = O_ADDR if role == "O" else W_ADDR
+        self.addr = net.cfg[role]
         self.log = []
-        self.prot = sd.ServiceDiscoveryProtocol(MCAST, timings=tm)
+        self.prot = sd.ServiceDiscoveryProtocol(net.cfg["mc"], timings=tm)
         self.transport = FakeTransport(net.sim, self.addr, on_send=lambda t, dest, data: net.send(self, dest, data))
         self.prot.transport = self.transport
         self.attached = True
@@ -106,7 +113,7 @@ class Stack:
             self.instance = sd.ServiceInstance(cfg.Service(*SVC, eventgroups=frozenset({1})), ServerRec(net.sim, self.log, "O"), self.prot.announcer, tm)
             self.prot.announcer.announce_service(self.instance)
         else:
-            self.prot.discovery.find_subscribe_eventgroup(cfg.Eventgroup(0x7000, 0xFFFF, 0xFF, 1, ("10.0.0.2", 5000), hdr.L4Protocols.UDP))
+            self.prot.discovery.find_subscribe_eventgroup(cfg.Eventgroup(0x7000, 0xFFFF, 0xFF, 1, net.cfg["wsock"], hdr.L4Protocols.UDP))
             self.prot.discovery.watch_service(cfg.Service(0x7000), ClientRec(net.sim, self.log, "W"))
 
     def start(self):
@@ -130,8 +137,9 @@ class Stack:
 
 
 class Net:
-    def __init__(self, sim, faults):
+    def __init__(self, sim, faults, v6=False):
         self.sim = sim
+        self.cfg = NETS[bool(v6)]
         self.stacks = {}
         self.fault = False
         self.faults = faults or [["ok"]]
@@ -143,7 +151,7 @@ class Net:
         if not sender.attached:
             return
         sender.sent_any = True
-        if dest == MCAST:
+        if dest == self.cfg["mc"]:
             targets = [(s, True) for a, s in self.stacks.items() if s is not sender and s.attached]
         else:
             s = self.stacks.get(dest)
@@ -192,7 +200,9 @@ def run_case(case):
         tm = timings(INITIAL_DELAY_MIN=0, INITIAL_DELAY_MAX=t["imax"], REQUEST_RESPONSE_DELAY_MIN=0, REQUEST_RESPONSE_DELAY_MAX=t["rmax"],
                      REPETITIONS_MAX=t["reps"], REPETITIONS_BASE_DELAY=t["base"], CYCLIC_OFFER_DELAY=t["cyc"], FIND_TTL=3,
                      ANNOUNCE_TTL=t["attl"], SUBSCRIBE_TTL=t["sttl"], SUBSCRIBE_REFRESH_INTERVAL=t["refresh"], SEND_COLLECTION_TIMEOUT=t["coll"])
-        net = Net(sim, case.get("faults"))
+        v6 = bool(case.get("v6"))
+        O_ADDR, W_ADDR, SUBKEY = NETS[v6]["O"], NETS[v6]["W"], subkey(v6)
+        net = Net(sim, case.get("faults"), v6)
         st_ = {}
         for role in "OW":
             st_[role] = Stack(net, role, tm)
@@ -293,4 +303,4 @@ def run_case(case):
         require(not sim.loop.errors, "C04.loop-error", lambda: str(sim.loop.errors[:2]))
         require(not sim.loop.task_errors(), "C04.loop-error", lambda: str(sim.loop.task_errors()[:2]))
     nontrivial = bool(feats["faulted-datagrams"] or (feats["rel-to-timer"] and (feats["crash"] or True)) or feats["crash"])
-    return ok(nontrivial, [f"family={fam}"] + [f"{k}={'1+' if v else 0}" for k, v in sorted(feats.items())])
+    return ok(nontrivial, [f"family={fam}", f"ipv6={int(v6)}"] + [f"{k}={'1+' if v else 0}" for k, v in sorted(feats.items())])
